@@ -83,20 +83,25 @@ theorem lexer_views_inside (l : List UInt8) (next : UInt8) :
   ⟨stripComments_prefix l, delAfterFirstSlash_prefix l, delAfterLastSlash_prefix l next, trim_infix l⟩
 
 /-- `loadString` (`clean(code_keywords, input + "\n")`) with the code keywords of the source
-tree as generated on this run: the cleaned text never exceeds `dst.resize(str.size())`, and
-is empty or ends in '\n' again — the invariant every later `getline` relies on. -/
-theorem lexer_clean_fits_and_keeps_newline (text : List UInt8) :
-    (clean OpmVerif.Gen.RawConsts.codeKeywords (text ++ [10])).length ≤ (text ++ [10]).length ∧
-    (clean OpmVerif.Gen.RawConsts.codeKeywords (text ++ [10]) = [] ∨
-      EndsNL (clean OpmVerif.Gen.RawConsts.codeKeywords (text ++ [10]))) :=
+tree as generated on this run, for both shapes of the slow loop (as it is / with the
+candidate repair of finding `C01.code_block_followed_by_code_keyword`; the translator reads
+which one the source has): the cleaned text never exceeds `dst.resize(str.size())`, and is
+empty or ends in '\n' again — the invariant every later `getline` relies on. -/
+theorem lexer_clean_fits_and_keeps_newline (retest : Bool) (text : List UInt8) :
+    (clean retest OpmVerif.Gen.RawConsts.codeKeywords (text ++ [10])).length ≤ (text ++ [10]).length ∧
+    (clean retest OpmVerif.Gen.RawConsts.codeKeywords (text ++ [10]) = [] ∨
+      EndsNL (clean retest OpmVerif.Gen.RawConsts.codeKeywords (text ++ [10]))) :=
   have h : text ++ [10] = [] ∨ EndsNL (text ++ [10]) := Or.inr (by simp [EndsNL])
-  ⟨clean_length_le _ codeKeywords_ok _ h, clean_endsNL _ _ h⟩
+  ⟨clean_length_le retest _ codeKeywords_ok _ h, clean_endsNL retest _ _ h⟩
 
 /-- the `while (true)` loop of the slow path of `clean` terminates: any fuel above the input
-length gives the same result. -/
-theorem lexer_clean_loop_terminates (kws : List (List UInt8 × List UInt8)) (f1 f2 : Nat) (input : List UInt8)
-    (h1 : input.length < f1) (h2 : input.length < f2) : cleanSlow kws f1 input = cleanSlow kws f2 input :=
-  cleanSlow_fuel kws f1 f2 input h1 h2
+length gives the same result (code keyword names are not empty, so every round consumes
+input — also with the re-test of the candidate repair). -/
+theorem lexer_clean_loop_terminates (retest : Bool) (f1 f2 : Nat) (input : List UInt8)
+    (h1 : input.length < f1) (h2 : input.length < f2) :
+    cleanSlow retest OpmVerif.Gen.RawConsts.codeKeywords f1 input =
+      cleanSlow retest OpmVerif.Gen.RawConsts.codeKeywords f2 input :=
+  cleanSlow_fuel retest _ codeKeywords_names f1 f2 input h1 h2
 
 /-- `fast_clean` at pointer level — `getline`'s `end + 1`, the copy through `dsti`,
 `*dsti++ = '\n'` — on any text that is empty or ends in '\n': never `ub`, result `fastClean`. -/
